@@ -31,7 +31,7 @@ CLAIMS.update({
         "DESIGN 4/C06",
     ),
     "C07": (
-        "Capture sites (map_with, to_span, to_slice, try_map, try_map_with, validate, select, foldl_with, pratt folds) are proved to hand user code exactly span/slice(entry cursor .. cursor after the child); per input kind span/slice are proved to cover exactly the cursor range, slices being sub-slices of the caller's buffer (&[T]: next_maybe / span / span_from / slice / slice_from / full_slice and the Range->SimpleSpan conversion verified by Verus on the extracted functions for slices of every length; arrays and &str on char boundaries: bounded buffers of 4), mapped/iter inputs spanning first-token start to last-token end; the Span algebra of src/span.rs (new/start/end/context for SimpleSpan, Range and (C, S); to_end; union keeps start <= end and encompasses both; into_range; both From conversions) proved over the whole usize domain.",
+        "Capture sites (map_with, to_span, to_slice, try_map, try_map_with, validate, select, foldl_with, pratt folds) are proved to hand user code exactly span/slice(entry cursor .. cursor after the child); per input kind span/slice are proved to cover exactly the cursor range, slices being sub-slices of the caller's buffer (&[T] and &[T; N]: next_maybe / span / span_from / slice / slice_from / full_slice and the Range->SimpleSpan conversion verified by Verus on the extracted functions for every length; &str on char boundaries: bounded buffers of 4), mapped/iter inputs spanning first-token start to last-token end; the Span algebra of src/span.rs (new/start/end/context for SimpleSpan, Range and (C, S); to_end; union keeps start <= end and encompasses both; into_range; both From conversions) proved over the whole usize domain.",
         _A + " The empty-match clause on token-spanned inputs (Input::map, IterInput) fails when a token is still ahead and is a recorded finding (two entries); at the end of input it holds and is asserted separately.",
         "DESIGN 4/C07",
     ),
@@ -46,7 +46,7 @@ CLAIMS.update({
         "DESIGN 4/C09",
     ),
     "C10": (
-        "One Input contract (begin at 0; next yields token i and cursor i+1 or None at the end without moving; spans/slices cover the cursor range) is proved per representation: &[T] (Verus on the extracted trait-impl methods, every length; Kani twin bounded), &[T;N], &str (bounded buffers), Input::map, map_span, with_context over the symbolic input (unbounded), IterInput and Stream, boxed or not (bounded, at-most-once in-order pulls); all combinators are proved against an input that satisfies nothing but this contract.",
+        "One Input contract (begin at 0; next yields token i and cursor i+1 or None at the end without moving; spans/slices cover the cursor range) is proved per representation: &[T] and &[T;N] (Verus on the extracted trait-impl methods, every length; Kani twins bounded), &str (bounded buffers), Input::map, map_span, with_context over the symbolic input (unbounded), IterInput and Stream, boxed or not (bounded, at-most-once in-order pulls); all combinators are proved against an input that satisfies nothing but this contract.",
         _A + " IoInput is proved against the same contract over a ghost reader with <= 4 bytes (bounded; BufReader is std's); Graphemes and the 512-item batch boundary of Stream are not covered.",
         "DESIGN 4/C10",
     ),
